@@ -24,9 +24,13 @@ def design_level(ctx):
     q = ctx.quick
     W = 4
     # exhaustive: every import order of every block tree (<= 6 blocks, 3 or 4 log signatures, height <= 4, reorg depth <= 3),
-    # a crash after the log transaction, resynchronisation at any time
+    # a crash after the log transaction, resynchronisation at any time (complete, or cancelled after any block)
     ctx.tlc_must_hold("store", "MC_LogIndex", cfg="MC_LogIndex_quick.cfg" if q else "MC_LogIndex_thorough.cfg", workers=W,
                       timeout=900 if q else 3000, label="exhaustive: longer chain wins, tie -> smaller id")
+    # the node runs with --skip-logs for a while (imports and reorganisations the log db never sees), is stopped, started with
+    # logs again: catch-up over a stale branch, cancelled and repeated resynchronisation
+    ctx.tlc_must_hold("store", "MC_LogIndex", cfg="s.cfg", workers=W, timeout=1500, label="exhaustive: skip-logs periods, catch-up, cancelled resync",
+                      files={"s.cfg": cfg_text("MC_LogIndex_skiplogs.cfg", MaxBlocks=4 if q else 5, MaxCrashes=0 if q else 1)})
     if not q:
         ctx.tlc_must_hold("store", "MC_LogIndex", cfg="MC_LogIndex_free.cfg", workers=W, timeout=3000,
                           label="exhaustive: ANY fork choice (every imported block may or may not become best)")
@@ -34,7 +38,10 @@ def design_level(ctx):
     ctx.tlc_must_hold("store", "MC_LogIndex", cfg="f.cfg", workers=W, timeout=1500, label="filters vs list semantics",
                       files={"f.cfg": cfg_text("MC_LogIndex_filter.cfg", MaxBlocks=2 if q else 3)})
     refuted = []
+    quick_teeth = ("no-truncate", "resync-f7", "page-before-order")
     for variant, inv in TEETH:
+        if q and variant not in quick_teeth:
+            continue
         base = "MC_LogIndex_filter.cfg" if inv.startswith("Filter") else "MC_LogIndex_quick.cfg"
         kw = {"Variant": '"%s"' % variant}
         if inv.startswith("Filter"):
@@ -48,15 +55,19 @@ def design_level(ctx):
     ctx.cov["wrong_designs_refuted_by_tlc"] = refuted
     if not q:
         # vacuity probes: each "never happens" property must be refuted
-        base = open(os.path.join(VERIF, "specs", "store", "MC_LogIndex_vacuity.cfg")).read()
-        for prop in ("NoDeepReorg", "NoResyncRepair"):
-            text = "\n".join(ln for ln in base.splitlines() if not ln.startswith("PROPERTY") or ln.split()[1] == prop) + "\n"
+        probes = [("NoDeepReorg", open(os.path.join(VERIF, "specs", "store", "MC_LogIndex_vacuity.cfg")).read()),
+                  ("NoResyncRepair", open(os.path.join(VERIF, "specs", "store", "MC_LogIndex_vacuity.cfg")).read()),
+                  ("NoCatchUpOverStaleBranch", cfg_text("MC_LogIndex_skiplogs.cfg", MaxBlocks=5)),
+                  ("NoCancelledResync", cfg_text("MC_LogIndex_skiplogs.cfg"))]
+        for prop, base in probes:
+            text = "\n".join(ln for ln in base.splitlines() if not ln.startswith("PROPERTY")) + "\nPROPERTY %s\n" % prop
             r = ctx.tlc("store", "MC_LogIndex", cfg="v.cfg", workers=W, timeout=1500, label="vacuity probe " + prop, count=False,
                         files={"v.cfg": text})
             if r.invariant is None:
                 raise Infra("vacuity probe %s: the model never does what the probe denies (%s)" % (prop, r.error or "no violation"))
         ctx.cov["vacuity_probe"] = ("reachable in the model: a best-switch abandoning 3 blocks and re-writing 2 from the repository; "
-                                    "a resync after a crash that changes the tables")
+                                    "a resync after a crash that changes the tables; a catch-up whose log db holds a branch that "
+                                    "is no longer canonical; a cancelled resynchronisation that stopped below the best block")
 
 
 def run(ctx):
@@ -71,12 +82,14 @@ def run(ctx):
     if os.environ.get("C15_ONLY_BINDING") != "1":      # development knob (mutant loops): skip the repo-independent TLC part
         design_level(ctx)
     # ---- implementation -> model
-    demo_ok = lc.binding_demo(ctx, ctx.seed * 7919 + 5)
-    if not demo_ok:
-        ctx.cov["binding_demo"] = "skipped: the unmodified demo trace is already rejected (reported below)"
-    batches = [("all", "reorg,pingpong,crash,rawdb,reorg,crash", 12 if q else 48, 22 if q else 30, 24, 0)]
+    lc.binding_demo(ctx, ctx.seed * 7919 + 5, full=not q)
+    # (label, scenarios, runs, blocks, queries per state, seed offset, extra driver flags). The disk scenario has its own
+    # genesis (launch time about a day before now), hence its own trace file.
+    batches = [("all", "reorg,pingpong,crash,rawdb,deep,crash,reorg,pack,reorg", 9 if q else 45, 22 if q else 30, 24, 0, ()),
+               ("disk", "disk", 1 if q else 6, 22, 24, 3, ())]
     if not q:
-        batches += [("deep", "reorg,crash,pingpong", 36, 44, 30, 1), ("raw5", "rawdb", 6, 40, 40, 2)]
+        batches += [("long", "reorg,crash,pingpong,deep", 36, 44, 30, 1, ()), ("raw5", "rawdb", 6, 40, 40, 2, ()),
+                    ("pack", "pack", 1, 8, 8, 4, ("-million",))]
     stats = []
     feat = {}
 
@@ -116,12 +129,12 @@ def run(ctx):
         if not e["opt"]:
             note("no options", hit)
 
-    for label, scen, runs, blocks, queries, off in batches:
-        per = 12
+    for label, scen, runs, blocks, queries, off, extra in batches:
+        per = 9
         for b0 in range(0, runs, per):
             n = min(per, runs - b0)
             seed = ctx.seed * 104729 + off * 1009 + b0
-            cfg, streams, st = lc.record(ctx, scen, n, blocks, queries, "%s-%d" % (label, b0), seed)
+            cfg, streams, st = lc.record(ctx, scen, n, blocks, queries, "%s-%d" % (label, b0), seed, extra)
             if cfg is None:
                 continue
             stats += st
@@ -138,18 +151,21 @@ def run(ctx):
                                 "a_query": lc.brief(qs[len(qs) // 2])}, limit=4)
     tot = lambda k: sum(s[k] for s in stats)
     hist = [sum(s["depthHist"][d] for s in stats) for d in range(6)]
-    ctx.cov["evaluations"] = tot("imports") + tot("ignored") + 2 * tot("crashes") + tot("queries") + tot("apiCalls")
-    ctx.cov["distinct_nontrivial"] = tot("reorgs") + tot("crashes")
+    ctx.cov["evaluations"] = (tot("imports") + tot("ignored") + 2 * tot("crashes") + 2 * tot("cancels") + tot("writeErrs") +
+                              tot("queries") + tot("apiCalls"))
+    ctx.cov["distinct_nontrivial"] = tot("reorgs") + tot("crashes") + tot("cancels")
     ctx.cov["rule"] = ("one evaluation = one comparison of real output with the specification: the complete event and transfer tables "
                        "read back after a delivery / crash / restart, or one filter query, or one API call; distinct non-trivial = "
                        "imports on a real node that abandoned a non-empty old branch (every one has its own block ids, depth and "
-                       "rows) plus crashes between the log transaction and the block store")
+                       "rows) plus crashes between the log transaction and the block store plus cancelled resynchronisations")
     ctx.cov["runs"] = len(stats)
     ctx.cov["checkpointed_states"] = tot("imports") + tot("ignored") + 2 * tot("crashes")
     ctx.cov["reorganisations"] = tot("reorgs")
     ctx.cov["reorganisations_by_depth_1_2_3_4_ge5"] = hist[1:]
     ctx.cov["blocks_canonical_again_after_leaving"] = tot("switchBacks")
     ctx.cov["crash_after_log_commit_then_resync"] = tot("crashes")
+    ctx.cov["skip_logs_period_then_cancelled_and_completed_resync_on_disk"] = tot("cancels")
+    ctx.cov["writes_refused_by_sequence_bounds"] = tot("writeErrs")
     ctx.cov["filter_queries"] = tot("queries")
     ctx.cov["filter_queries_nonempty"] = tot("queryHits")
     ctx.cov["api_calls"] = tot("apiCalls")
@@ -157,8 +173,10 @@ def run(ctx):
     ctx.cov["five_topic_rows"] = tot("fiveTopics") if stats and "fiveTopics" in stats[0] else tot("fiveTopicRows")
     ctx.cov["largest_table"] = max([s["maxRows"] for s in stats] or [0])
     ctx.cov["exhaustive"] = False
-    if stats and (tot("reorgs") < 10 or hist[3] + hist[4] + hist[5] == 0 or tot("crashes") == 0):
-        raise Infra("the recorded runs are too tame (reorgs=%d, by depth=%s, crashes=%d)" % (tot("reorgs"), hist[1:], tot("crashes")))
+    if stats and (tot("reorgs") < 10 or hist[3] + hist[4] + hist[5] == 0 or tot("crashes") == 0 or tot("cancels") == 0
+                  or tot("writeErrs") < 2):
+        raise Infra("the recorded runs are too tame (reorgs=%d, by depth=%s, crashes=%d, cancelled resyncs=%d, refused writes=%d)"
+                    % (tot("reorgs"), hist[1:], tot("crashes"), tot("cancels"), tot("writeErrs")))
     ctx.assumptions += [
         "sqlite executes the SQL it is given correctly and a committed transaction is atomic and durable",
         "block ids, tx ids, timestamps, receipts and the outcome of the fork choice ('became best') are logged facts; "
